@@ -2,6 +2,6 @@ SPECIFICATION Spec
 CONSTANTS
   MaxLimit = 5
   MaxRoutes = 3
-INVARIANTS TypeOK LevelBound GivesUpLate
+INVARIANTS TypeOK LevelBound GivesUpLate IndInv
 PROPERTY Terminates
 CHECK_DEADLOCK FALSE
